@@ -779,7 +779,11 @@ func (w *world) exec(op string) string {
 		}
 		if tail == "" {
 			// every message must have left the leader before it is looked at
-			waitFor(5*time.Second, func() bool { ms, _ := l.peekSent(fo.name); return uint64(len(ms)) >= n })
+			wantMsgs := 2 // the first change alone, the others in one message
+			if n == 1 {
+				wantMsgs = 1
+			}
+			waitFor(5*time.Second, func() bool { ms, _ := l.peekSent(fo.name); return len(ms) >= wantMsgs })
 		}
 		ms := l.takeSent(fo.name)
 		return fmt.Sprintf("ok acc=%s next=%d msgs=%s fnext=%d%s", acc.String(), h.GetNextIndex(), fmtMsgs(ms), fh.GetNextIndex(), tail)
